@@ -25,7 +25,10 @@ from . import geomgen as G
 ANCHOR_FILES = ['spatialpandas/geometry/point.py',
                 'spatialpandas/geometry/_algorithms/intersection.py',
                 'spatialpandas/geometry/baselist.py', 'spatialpandas/geometry/basefixed.py']
-TRUSTED = ['numpy slicing / strided views / fancy indexing as transcribed in Model/PointShape.v',
+TRUSTED = ['model input of a scalar shape = zero-offset buffer rebuilt from its public nested '
+           'coordinate lists (library-built scalars are zero-offset); the shape\'s own buffers are an '
+           'optional internal extra (counted, never an alarm by itself)',
+           'numpy slicing / strided views / fancy indexing as transcribed in Model/PointShape.v',
            'pyarrow buffers() export of the point array and of the scalar shape '
            '(harness/common.py export_fixarr, harness/c02_util.py export_shape)',
            'A-FLOAT: float64/float32/int arithmetic on the enumerated small integers is exact',
@@ -54,7 +57,7 @@ class Variant:
         assert len(arr) == len(pts)
         self.els = [arr[i] for i in range(len(arr))]
         assert all((e is None) == (p is None) for e, p in zip(self.els, pts))
-        self.rec = C.export_fixarr(arr)
+        self.rec, self.rec_source = U.export_points(arr, pts)
         self.n = len(pts)
         # float64 twins of the elements (same slots, same integers) for the scalar form
         self.twin_els = self.els if subtype == 'float64' else \
@@ -222,27 +225,34 @@ def gen_degenerate():
 
 
 def arrow_scalar_shapes():
-    """scalars built *directly* from a pyarrow scalar of an array (Geometry.__init__ keeps it
-    as is, so listarray.offset is non-zero).  The library itself never does this.
-    (kind, shape, sem): sem = None where the code is known to read the wrong values (a
-    0-level scalar -- Line, MultiPoint -- ignores listarray.offset): there model = code only."""
+    """scalars built *directly* from a pyarrow scalar of an array (the public constructors
+    accept one and keep it as is, so the scalar's buffers have a non-zero offset).  The
+    library itself never does this.  (kind, shape, coords, sem); sem = None where the code is
+    known to read the wrong values (a 0-level scalar -- Line, MultiPoint -- ignores the
+    offset): those two are outside the quantifier and compared with the model on the
+    shape's own buffers only (an internal extra).  A shape that cannot be built this way is
+    returned as None."""
     sq = [0, 0, 4, 0, 4, 4, 0, 4, 0, 0]
     sqv = [(0, 0), (4, 0), (4, 4), (0, 4)]
     hole = [(1, 1), (1, 2), (2, 1)]
     tri = [(9, 9), (8, 8), (9, 8)]
+    specs = [
+        ('polygon', [[[9, 9, 8, 8, 9, 8, 9, 9]], None, [sq, [1, 1, 1, 2, 2, 1, 1, 1]]], 2, [sqv, hole]),
+        ('polygon', [[[9, 9, 8, 8, 9, 8, 9, 9]], None, [sq, [1, 1, 1, 2, 2, 1, 1, 1]]], 0, [tri]),
+        ('multipolygon', [[[[9, 9, 8, 8, 9, 8, 9, 9]]], [[sq], [[6, 6, 8, 6, 8, 8, 6, 6]]]], 1,
+         [[sqv], [[(6, 6), (8, 6), (8, 8)]]]),
+        ('multiline', [[[9, 9, 8, 8]], [[0, 0, 4, 4], [2, 0, 2, 4]]], 1, [[(0, 0), (4, 4)], [(2, 0), (2, 4)]]),
+        ('line', [[9, 9, 8, 8], [0, 0, 4, 4, 4, 0]], 1, None),
+        ('multipoint', [[9, 9, 8, 8], [0, 0, 4, 4, 4, 0]], 1, None),
+    ]
     out = []
-    a = G.make_array('polygon', [[[9, 9, 8, 8, 9, 8, 9, 9]], None, [sq, [1, 1, 1, 2, 2, 1, 1, 1]]], 'float64')
-    out.append(('polygon', G.scalar_class('polygon')(a.data[2]), [sqv, hole]))
-    out.append(('polygon', G.scalar_class('polygon')(a.data[0]), [tri]))
-    a = G.make_array('multipolygon', [[[[9, 9, 8, 8, 9, 8, 9, 9]]], [[sq], [[6, 6, 8, 6, 8, 8, 6, 6]]]], 'float64')
-    out.append(('multipolygon', G.scalar_class('multipolygon')(a.data[1]),
-                [[sqv], [[(6, 6), (8, 6), (8, 8)]]]))
-    a = G.make_array('multiline', [[[9, 9, 8, 8]], [[0, 0, 4, 4], [2, 0, 2, 4]]], 'float64')
-    out.append(('multiline', G.scalar_class('multiline')(a.data[1]), [[(0, 0), (4, 4)], [(2, 0), (2, 4)]]))
-    a = G.make_array('line', [[9, 9, 8, 8], [0, 0, 4, 4, 4, 0]], 'float64')
-    out.append(('line', G.scalar_class('line')(a.data[1]), None))
-    a = G.make_array('multipoint', [[9, 9, 8, 8], [0, 0, 4, 4, 4, 0]], 'float64')
-    out.append(('multipoint', G.scalar_class('multipoint')(a.data[1]), None))
+    for kind, elems, i, sem in specs:
+        try:
+            a = G.make_array(kind, elems, 'float64')
+            shape = G.scalar_class(kind)(a.__arrow_array__()[i])
+        except Exception:  # noqa: BLE001
+            shape = None
+        out.append((kind, shape, elems[i], sem))
     return out
 
 
@@ -250,7 +260,8 @@ def arrow_scalar_shapes():
 # implementation side
 # --------------------------------------------------------------------------
 def _is_empty_line_error(e):
-    return isinstance(e, StopIteration) or (isinstance(e, ValueError) and 'empty' in str(e))
+    # by class only: builtin min([]) raises ValueError, numba's min(empty array) StopIteration
+    return isinstance(e, (StopIteration, ValueError))
 
 
 def call(f):
@@ -347,16 +358,22 @@ class Batch:
         self.fn = f"harness_eval {arrs}"
         self.cases, self.res, self.meta = [], [], []
 
-    def wire(self, vidx, kind, shape, inds, known, value):
-        code, off, ln, offs, vals = U.wire_shape(kind, shape)
+    def wire(self, vidx, w, inds, known, value):
+        code, off, ln, offs, vals = w
         return Raw(f"({vidx}, {code}, {off}, {ln}, {U.zlist(offs)}, {U.zlist(vals)}, "
                    f"{U.zlist(inds)}, {known}, {value})%Z")
 
 
 def check_one(rep, batch, vidx, kind, shape, inds, meta, sem=None, subtypes_all=None,
-              sc_els=None, sc_shape=None):
+              sc_els=None, sc_shape=None, internal_only=False):
     """run the three forms of one shape on one point array; queue the model comparison;
-    compare with the oracle.  Returns False when a violation was reported."""
+    compare with the oracle.  Returns False when a violation was reported.
+
+    The model's input is rebuilt from the PUBLIC nested coordinate lists (meta['coords']) as
+    a fresh zero-offset buffer.  The shape's own internal buffers are exported as well when
+    that is possible; when they differ from the public rebuild an extra, internal case is
+    queued whose disagreement alone is counted, never reported.  internal_only: the shape is
+    outside the quantifier and only the internal comparison is meaningful."""
     v = batch.variants[vidx]
     ok = True
     res = impl_three_forms(v, shape, v.els if sc_els is None else sc_els,
@@ -396,9 +413,24 @@ def check_one(rep, batch, vidx, kind, shape, inds, meta, sem=None, subtypes_all=
             rep.violation(f'oracle:{kind}:raises', f'{kind}: a shape of the quantifier raises',
                           {**meta, 'impl': res})
             ok = False
-    batch.cases.append(batch.wire(vidx, kind, shape, inds, known, value))
-    batch.res.append(Some((enc_out(res['arr']), enc_out(res['inds']), enc_scalars(res['scalars']), True)))
-    batch.meta.append({**meta, 'impl': res, 'oracle': orow})
+    expected = Some((enc_out(res['arr']), enc_out(res['inds']), enc_scalars(res['scalars']), True))
+    pub = U.wire_from_coords(kind, meta['coords'])
+    try:
+        internal = U.wire_shape(kind, shape)
+    except Exception:  # noqa: BLE001  (attribute renamed, layout changed, ...)
+        internal = None
+        rep.count('internal-unavailable:scalar-shape-buffers')
+    pub_index = None
+    if not internal_only:
+        pub_index = len(batch.cases)
+        batch.cases.append(batch.wire(vidx, pub, inds, known, value))
+        batch.res.append(expected)
+        batch.meta.append({**meta, 'impl': res, 'oracle': orow, 'internal': False})
+    if internal is not None and (internal_only or internal != pub):
+        rep.count('internal-buffers-case')
+        batch.cases.append(batch.wire(vidx, internal, inds, 0, 0))
+        batch.res.append(expected)
+        batch.meta.append({**meta, 'impl': res, 'oracle': None, 'internal': True, 'public_index': pub_index})
     return ok
 
 
@@ -429,7 +461,13 @@ def decode_model(txt, n, ninds):
 def flush(rep, batch):
     bad = C.coq_mismatches(IMPORTS, batch.fn, 'wire_case', 'option (Z * Z * Z * bool)',
                            batch.cases, batch.res, shard=400)
-    for i in bad[:12]:
+    badset = set(bad)
+    for i in bad:
+        m = batch.meta[i]
+        if m['internal'] and m['public_index'] not in badset:
+            # only the model run on the shape's internal buffers differs
+            rep.count('internal-differs-public-agrees')
+    for i in [i for i in bad if not batch.meta[i]['internal']][:12]:
         m = batch.meta[i]
         txt = C.coq_eval(IMPORTS, f'{batch.fn} {C.coq(batch.cases[i])}')
         model = decode_model(txt, 0, 0)
@@ -469,10 +507,17 @@ def scalar_side(variants, v, tier, kind, coords, shape):
     return v.twin_els, U.make_shape(kind, coords, 'array:float64')
 
 
+def _single_thread(rep):
+    try:
+        import numba
+        numba.set_num_threads(1)
+    except Exception:  # noqa: BLE001
+        rep.count('internal-unavailable:numba-threads')
+
+
 def run(rep):
-    import numba
     tier = getattr(rep, 'tier_run', rep.tier)
-    numba.set_num_threads(1)
+    _single_thread(rep)
     rep.rule = ('shape vertices on even coordinates of a 3x3 sub-grid, points on every integer of '
                 '-1..5 squared plus 5 far points plus 2 missing slots; every simple ring of 3-4 '
                 'vertices (thorough: 5; every start vertex, both windings), 0-2 holes wound opposite, multipolygons '
@@ -555,30 +600,34 @@ def run(rep):
                       sem=sh.get('sem'))
             rep.evaluations += 1
             rep.count(sh['cls'])
-    for j, (kind, shape, sem) in enumerate(arrow_scalar_shapes()):
+    for j, (kind, shape, coords, sem) in enumerate(arrow_scalar_shapes()):
+        if shape is None:
+            rep.count('internal-unavailable:scalar-from-arrow-scalar')
+            continue
         vidx = f64[j % 2]
         inds = rand_inds(rng, variants[vidx].n)
         check_one(rep, batch, vidx, kind, shape, inds,
-                  {'kind': kind, 'coords': shape.data.as_py(), 'route': 'arrow_scalar', 'sem': sem,
-                   'variant': variants[vidx].name, 'inds': inds, 'arrow_scalar_index': j}, sem=sem)
+                  {'kind': kind, 'coords': coords, 'route': 'arrow_scalar', 'sem': sem,
+                   'variant': variants[vidx].name, 'inds': inds, 'arrow_scalar_index': j}, sem=sem,
+                  internal_only=sem is None)
         rep.evaluations += 1
         rep.count('arrow_scalar_offset' if sem else 'degenerate:arrow_scalar_offset_0level')
     flush(rep, batch)
     rep.extra['point_shape_pairs'] = pairs
     rep.extra['model_cases'] = len(batch.cases)
+    rep.extra['point_buffers_source'] = {v.name: v.rec_source for v in variants}
     rep.extra['model_vs_oracle_cases'] = sum(1 for m in batch.meta if m['oracle'] is not None)
 
 
 def replay(rep, rp):
-    import numba
-    numba.set_num_threads(1)
+    _single_thread(rep)
     variants = build_variants()
     names = [v.name for v in variants]
     batch = Batch(variants)
     vidx = names.index(rp['variant'])
     kind = rp['kind']
     if rp.get('route') == 'arrow_scalar':
-        kind, shape, _ = arrow_scalar_shapes()[rp['arrow_scalar_index']]
+        kind, shape, _, _ = arrow_scalar_shapes()[rp['arrow_scalar_index']]
     else:
         shape = U.make_shape(kind, rp['coords'], rp['route'])
     sem = rp.get('sem')
@@ -588,7 +637,8 @@ def replay(rep, rp):
         sem = tup(sem)
     meta = {'kind': kind, 'coords': rp['coords'], 'route': rp.get('route'), 'variant': rp['variant'],
             'inds': rp['inds']}
-    ok = check_one(rep, batch, vidx, kind, shape, rp['inds'], meta, sem=sem)
+    ok = check_one(rep, batch, vidx, kind, shape, rp['inds'], meta, sem=sem,
+                   internal_only=(rp.get('route') == 'arrow_scalar' and sem is None))
     if batch.cases:
         print('shape :', type(shape).__name__, rp['coords'], 'points:', rp['variant'])
         print('impl  :', batch.meta[0]['impl'])
